@@ -173,6 +173,13 @@ impl Engine for ProgEngine {
             "prog"
         }
     }
+    fn describe(&self, case: &Self::Case) -> serde_json::Value {
+        let mut v = serde_json::to_value(case).unwrap_or(serde_json::Value::Null);
+        if let Some(o) = v.as_object_mut() {
+            o.insert("module".into(), serde_json::Value::String(crate::pp::module(&case.module, "")));
+        }
+        v
+    }
     fn gen(&mut self, rng: &mut Prng, _tier: Tier) -> Case {
         let inputs = gen_inputs(rng);
         if self.closures && rng.chance(1, 2) {
